@@ -62,7 +62,7 @@ def run_trading(rnd, S, cfgk, intensity=1.0, script=None, analyser=False):
     from rqalpha.core.events import EVENT
     from rqalpha.core.execution_context import ExecutionContext
     from rqalpha.model.order import LimitOrder
-    from rqalpha.const import SIDE, POSITION_EFFECT
+    from rqalpha.const import SIDE, POSITION_EFFECT, POSITION_DIRECTION
     tr = Trace()
     tr.S, tr.cfg = S, cfgk
     srnd = random.Random(rnd.random())
@@ -128,6 +128,22 @@ def run_trading(rnd, S, cfgk, intensity=1.0, script=None, analyser=False):
             call = {"phase": phase, "when": env.calendar_dt, "api": None, "args": None, "orders": [], "exc": None}
             before = accounts_snap(context)
             pf_before = pf_snap(context)
+            n_val0 = len(tr.rec.validations)
+            pos_info = {}
+            try:
+                for oid_ in stocks:
+                    p_ = context.portfolio.accounts["STOCK"].get_position(oid_, POSITION_DIRECTION.LONG) if "STOCK" in context.portfolio.accounts else None
+                    if p_ is not None:
+                        pos_info[oid_] = {"qty": p_.quantity, "closable": p_.closable, "market_value": float(p_.market_value), "price": float(env.get_last_price(oid_))}
+                for oid_ in futs:
+                    if "FUTURE" in context.portfolio.accounts:
+                        a_ = context.portfolio.accounts["FUTURE"]
+                        l_, s_ = a_.get_position(oid_, POSITION_DIRECTION.LONG), a_.get_position(oid_, POSITION_DIRECTION.SHORT)
+                        pos_info[oid_] = {"long": {"qty": l_.quantity, "old": l_._old_quantity, "closable": l_.closable, "today_closable": l_.today_closable},
+                                          "short": {"qty": s_.quantity, "old": s_._old_quantity, "closable": s_.closable, "today_closable": s_.today_closable},
+                                          "price": float(env.get_last_price(oid_))}
+            except Exception as ex_:
+                pos_info = {"error": repr(ex_)}
             open_before = [o.order_id for o in env.broker.get_open_orders()]
             res = None
             try:
@@ -265,6 +281,8 @@ def run_trading(rnd, S, cfgk, intensity=1.0, script=None, analyser=False):
                 call["exc"] = (type(ex).__name__, str(ex)[:200])
             if call["api"] is None:
                 continue
+            call["val_range"] = (n_val0, len(tr.rec.validations))
+            call["pos_before"] = pos_info
             def flat(x):
                 if isinstance(x, (list, tuple)):
                     for y in x:
